@@ -1,1 +1,19 @@
-fn main(){}
+//! E1: replica simulator. Real `bft::Config::run` x N over harness-owned network, storage, clock,
+//! Byzantine validators and crashes, with online monitors (C01, C02b, C03, C05, C06, C10-L6, C16b).
+mod byz;
+mod director;
+mod engine;
+mod log;
+mod monitor;
+mod scen;
+mod world;
+
+use vcommon::{Args, Report};
+
+fn main() {
+    let args = Args::parse();
+    vcommon::install_quiet_panic_hook();
+    let mut rep = Report::new(&args);
+    scen::run(&args, &mut rep);
+    std::process::exit(rep.finish());
+}
